@@ -408,3 +408,52 @@ def qu2cu_pen_keeps_outline(n):
     replay(ev, pen)
     observe('n_events', len(rec.value))
     ob('same-outline', outline_eq(canon(rec.value), canon(ev)))
+
+
+# ------------------------------------------------------------------------------------------------ Cu2QuPen on consecutive curves
+import fontTools.pens.cu2quPen as CQP
+from fontTools.pens.recordingPen import RecordingPen
+shim_all(CQP)
+
+
+@kernel('C13', funcs=['pens/cu2quPen.py:Cu2QuPen._convert_curve', 'pens/cu2quPen.py:Cu2QuPen.curveTo', 'pens/basePen.py:AbstractPen.curveTo', 'cu2qu/cu2qu.py:curve_to_quadratic'],
+        bounds='a closed contour of two consecutive cubics from the concrete family (the second translated to start where the first ends; pairs from the parameter, chosen '
+               'so that with all_quadratic=False the first is kept as a cubic for small tolerances and the second is converted; one second curve is built so that it would be an exact quadratic IF it started at the start of the first curve) x ALL tolerances in [0.2, 60] (symbolic '
+               'real) x all_quadratic in {True, False}: the pen emits one segment per input curve, every segment starts where the previous one ends, a kept cubic is '
+               'passed on verbatim, and every converted segment is within the tolerance of ITS OWN input curve (sampled deviation, both directions)',
+        assumptions=['distance measured by sampling (96/192 points per segment) with slack 0.5% + 0.01 unit'],
+        quick=[dict(first='s', second='quadlike', aq=False), dict(first='hook', second='arch', aq=True), dict(first='dome', second='quad-from-first-start', aq=False)],
+        thorough=[dict(first=a, second=b, aq=q) for a, b in (('s', 'quadlike'), ('hook', 'arch'), ('loop', 'doc1'), ('quadlike', 's'), ('wide', 'quadlike'), ('dome', 'quad-from-first-start'), ('s', 'quad-from-first-start')) for q in (False, True)],
+        max_paths=20000)
+def cu2qu_pen_consecutive_curves(first, second, aq):
+    c1 = [tuple(map(float, p)) for p in (CUBICS[first] if first != 'dome' else [(0, 0), (0, 100), (200, 100), (200, 0)])]
+    if second == 'quad-from-first-start':
+        # the control points that make (START OF THE FIRST CURVE, p1, p2, p3) an exactly elevated quadratic, drawn from the END of the first curve: a pen
+        # that converts from a stale current point sees a quadratic where there is none
+        q0, q1, q2 = c1[0], (c1[0][0] + 300.0, c1[0][1] - 300.0), (c1[0][0] + 600.0, c1[0][1])
+        c2 = [c1[3], (q0[0] + 2 * (q1[0] - q0[0]) / 3, q0[1] + 2 * (q1[1] - q0[1]) / 3), (q2[0] + 2 * (q1[0] - q2[0]) / 3, q2[1] + 2 * (q1[1] - q2[1]) / 3), q2]
+    else:
+        c2 = CUBICS[second]
+        dx, dy = c1[3][0] - c2[0][0], c1[3][1] - c2[0][1]
+        c2 = [(float(x + dx), float(y + dy)) for x, y in c2]
+    tol = V.real('tol', 0.2, 60)
+    rec = RecordingPen()
+    pen = CQP.Cu2QuPen(rec, tol, all_quadratic=aq)
+    pen.moveTo(c1[0])
+    pen.curveTo(*c1[1:])
+    pen.curveTo(*c2[1:])
+    pen.closePath()
+    ops = rec.value
+    observe('ops', [op for op, _ in ops])
+    ob('one-segment-per-curve', len(ops) == 4 and ops[0][0] == 'moveTo' and ops[-1][0] == 'closePath' and all(op in ('curveTo', 'qCurveTo') for op, _ in ops[1:3]))
+    if len(ops) != 4:
+        return
+    cur = tuple(ops[0][1][0])
+    for i, (cubic, (op, pts)) in enumerate(zip((c1, c2), ops[1:3])):
+        label = 'curve%d:' % (i + 1)
+        spline = [cur] + [tuple(p) for p in pts]
+        if op == 'curveTo':
+            ob(label + 'cubic-kept-verbatim', not aq and len(pts) == 3 and [tuple(p) for p in spline] == [tuple(p) for p in cubic])
+        else:
+            _check_spline(cubic, spline, tol, label, True)
+        cur = tuple(pts[-1])
